@@ -218,6 +218,7 @@ fn check_attrs(input: &DeriveInput) -> (bool, bool, bool) {
 fn add_field_param_bounds(
     generics: &syn::Generics,
     is_field_type: &dyn Fn(&syn::Ident) -> bool,
+    is_zero_copy: bool,
     where_clause_ser: &mut WhereClause,
     where_clause_des: &mut WhereClause,
 ) {
@@ -254,22 +255,26 @@ fn add_field_param_bounds(
             colon_token: None,
             bounds: Punctuated::new(),
         }));
-        // Add the type bounds to the DeserType
-        where_clause_des
-            .predicates
-            .push(WherePredicate::Type(PredicateType {
-                lifetimes: Some(BoundLifetimes {
-                    for_token: token::For::default(),
-                    lt_token: token::Lt::default(),
-                    lifetimes,
-                    gt_token: token::Gt::default(),
-                }),
-                bounded_ty: syn::parse_quote!(
-                    <#ty as epserde::deser::DeserializeInner>::DeserType<'epserde_desertype>
-                ),
-                colon_token: token::Colon::default(),
-                bounds: bounds.clone(),
-            }));
+        // Add the type bounds to the DeserType (the DeserType of a zero-copy
+        // type is a reference to the type itself: its parameters are not
+        // replaced by their DeserType)
+        if !is_zero_copy {
+            where_clause_des
+                .predicates
+                .push(WherePredicate::Type(PredicateType {
+                    lifetimes: Some(BoundLifetimes {
+                        for_token: token::For::default(),
+                        lt_token: token::Lt::default(),
+                        lifetimes,
+                        gt_token: token::Gt::default(),
+                    }),
+                    bounded_ty: syn::parse_quote!(
+                        <#ty as epserde::deser::DeserializeInner>::DeserType<'epserde_desertype>
+                    ),
+                    colon_token: token::Colon::default(),
+                    bounds: bounds.clone(),
+                }));
+        }
         // Add the type bounds to the SerType
         where_clause_ser
             .predicates
@@ -449,6 +454,7 @@ pub fn epserde_derive(input: TokenStream) -> TokenStream {
             add_field_param_bounds(
                 &derive_input.generics,
                 &|ty| types_with_generics.iter().any(|x| *ty == x.to_token_stream().to_string()),
+                is_zero_copy,
                 &mut where_clause_ser,
                 &mut where_clause_des,
             );
@@ -757,6 +763,7 @@ pub fn epserde_derive(input: TokenStream) -> TokenStream {
             add_field_param_bounds(
                 &derive_input.generics,
                 &|ty| types_with_generics.iter().any(|x| *ty == x.to_string()),
+                is_zero_copy,
                 &mut where_clause_ser,
                 &mut where_clause_des,
             );
